@@ -133,4 +133,39 @@ theorem windowsAux_spec (width mlw : Nat) (h : 0 < mlw) :
       subst hl
       exact Nat.le_of_not_lt hlt
 
+theorem regroup_flatten' {γ : Type} : ∀ (spans : List Nat) (xs : List γ), spans.sum = xs.length →
+    (regroup spans xs).flatten = xs := by
+  intro spans
+  induction spans with
+  | nil => intro xs h; simp at h; simp [regroup, List.eq_nil_of_length_eq_zero h.symm]
+  | cons s r ih =>
+    intro xs h
+    simp only [List.sum_cons] at h
+    have : r.sum = (xs.drop s).length := by simp; omega
+    simp [regroup, ih _ this]
+
+theorem regroup_lengths' {γ : Type} : ∀ (spans : List Nat) (xs : List γ), spans.sum ≤ xs.length →
+    (regroup spans xs).map List.length = spans := by
+  intro spans
+  induction spans with
+  | nil => intro xs _; simp [regroup]
+  | cons s r ih =>
+    intro xs h
+    simp only [List.sum_cons] at h
+    have : r.sum ≤ (xs.drop s).length := by simp; omega
+    simp [regroup, ih _ this]; omega
+
+theorem regroup_get' {γ : Type} : ∀ (spans : List Nat) (xs : List γ) (k : Nat), k < spans.length →
+    (regroup spans xs)[k]? = some ((xs.drop (spans.take k).sum).take (spans.getD k 0)) := by
+  intro spans
+  induction spans with
+  | nil => intro xs k h; simp at h
+  | cons s r ih =>
+    intro xs k h
+    cases k with
+    | zero => simp [regroup]
+    | succ k =>
+      have hk : k < r.length := by simpa using h
+      simp [regroup, ih (xs.drop s) k hk, List.drop_drop]
+
 end Merge
